@@ -20,6 +20,7 @@ FloatReprs   == {<<"1",".","5">>, <<"1","e","+","1","6">>, <<"i","n","f">>, <<"n
 KeyTexts     == {<<"a">>, <<"1","e","3">>, <<"1">>} \cup (IF Depth2 THEN {<<"t","r","u","e">>, <<".","_","1">>, << >>} ELSE {})
 
 Color  == TEnum(<<<<"R","E","D">>, <<"G","R","E","E","N">>>>)
+Color2 == TEnum(<<<<"A">>, <<"B">>>>)
 LitT   == TLiteral(<<Str(<<"a">>), Str(<<"1","e","3">>), IntV(<<"1">>), NullV>>)
 DC1    == TDC(<< <<<<"a">>, TInt, IntV(<<"1">>)>>, <<<<"s">>, TStr, Str(<<"x">>)>> , <<<<"o">>, TOpt(TStr), NullV>> >>)
 \* TLC orders the fields of a record by the order in which it first met their names, so a set that holds records of
@@ -37,6 +38,7 @@ Depth1 == {Tag(TOpt(LeavesSeq[i])) : i \in 1..Len(LeavesSeq)}
      \cup SeqSet(<<TSet(TInt), TSet(TStr), TTuple(<<TInt, TStr>>), TTuple(<<TStr, TFloat>>), TTupleE(TStr)>>)
      \cup SeqSet(<<TDict(TStr, TStr), TDict(TStr, TInt), TDict(TStr, Color), TDict(TInt, TStr)>>)
      \cup SeqSet(<<TOpt(DC1), TList(DC1), TDict(TStr, DC1)>>)
+     \cup SeqSet(<<TUnion(<<Color, Color2>>), TUnion(<<Color2, Color>>), TUnion(<<TTupleE(Color2), TList(Color)>>)>>)
 Depth2Types == SeqSet(<<TOpt(TList(TStr)), TOpt(TList(TInt)), TList(TOpt(TStr)), TList(TOpt(TInt)), TDict(TStr, TList(TStr)), TList(TDict(TStr, TInt)),
                 TUnion(<<TInt, TList(TInt)>>), TUnion(<<TStr, TList(TStr)>>), TUnion(<<TList(TStr), TStr>>), TList(TTuple(<<TInt, TStr>>)),
                 TDict(TStr, TUnion(<<TInt, TStr>>)), TDict(TStr, TOpt(TFloat)), TOpt(TDict(TStr, TStr)), TList(TUnion(<<TStr, TFloat>>)),
